@@ -343,6 +343,19 @@ def m_input_capture():
                     arm_t("Done", [pv("o")], out(var("o")))])
 
 
+def m_leak(variant):
+    """ill-scoped on purpose: an arm uses a variable that only ANOTHER arm's pattern binds / rebinds"""
+    if variant == 0:
+        return machine([("n", U64), ("m", U64)], U64, [("A", [U64]), ("B", [U64]), ("Done", [U64])], ("A", [var("n")]),
+                       [arm_t("A", [pv("m")], nxt("B", add(var("m"), lit(1)))),
+                        arm_t("B", [pv("k")], nxt("Done", add(var("k"), var("m")))),
+                        arm_t("Done", [pv("o")], out(var("o")))])
+    return machine([("n", U64), ("m", U64)], U64, [("A", [U64]), ("B", [U64]), ("Done", [U64])], ("A", [var("n")]),
+                   [arm_t("A", [pv("x")], nxt("B", add(var("x"), var("m")))),
+                    arm_t("B", [pv("k")], nxt("Done", add(var("k"), var("x")))),
+                    arm_t("Done", [pv("o")], out(var("o")))])
+
+
 def m_vsum():
     return machine([("xs", VEC)], U64, [("S", [VEC, U64]), ("Done", [U64])], ("S", [var("xs"), lit(0)]),
                    [arm_t("S", [pa([]), pv("acc")], nxt("Done", var("acc"))),
@@ -726,6 +739,7 @@ def generate(tier, rng):
     ] + [("overlap%d" % v, m_overlap(v), ["n"]) for v in range(4)] \
       + [("literal-arms%d" % v, m_literal_arms(v), ["n", "n"]) for v in range(4)] \
       + [("fallthrough", m_fallthrough(), ["n", "n"]), ("input-capture", m_input_capture(), ["n", "n"]),
+         ("leak0", m_leak(0), ["n", "n"]), ("leak1", m_leak(1), ["n", "n"]),
          ("vsum", m_vsum(), ["v"]), ("vreverse", m_vreverse(), ["v"]), ("vmax", m_vmax(), ["v"]), ("vends", m_vends(), ["v"]),
          ("vbubble", m_vbubble(), ["v"]), ("vliteral", m_vliteral_head(), ["v", "n"])] \
       + [("nonterm%d" % v, m_nonterm(v), ["n"] if v < 3 else ["v"]) for v in range(4)]
@@ -784,6 +798,13 @@ def generate(tier, rng):
             for v in [V(1), V(2, 1), V(3, 1, 2), V(4, 3, 2, 1)]:
                 args = [v] + [A(2)] * (len(in_tys) - 1)
                 yield make_case(ds, args, 64, dict(stream="sized-vector-kind", machine=label))
+    # declared output kind that the output arm does not produce (the code never checks it: advisory)
+    for label, d, in_tys in documented:
+        if label in ("vreverse", "vsum", "counter", "vmax"):
+            v = clone(d)
+            v["out"] = U64 if d["out"] == VEC else VEC
+            for args in input_domain(in_tys, rng, 3):
+                yield make_case(v, list(args), 64, dict(stream="ill-kinded-output", machine=label))
     for label, d, in_tys in documented[:6]:
         v = clone(d)
         v["inputs"] = [(n, None) for n, k in v["inputs"]]
